@@ -8,7 +8,7 @@ MANIFEST = (
     "exploration",
     "runtime monitor: differential oracle (own long-double semi-implicit / overdamped Euler reference, own node mass) on the state "
     "before and after every call of update_nodes_positions, in all six compile-time configurations, 1 and 8 OpenMP threads",
-    "Held on every call of time_integration_scheme::update_nodes_positions of the run: 200 (quick) / 5000 (thorough) generated populations "
+    "Held on every call of time_integration_scheme::update_nodes_positions of the run: 200 (quick) / 20 000 (thorough) generated populations "
     "per build x 6 builds (contact model 0/1/2 x dynamic model 0/1), 1-20 consecutive calls each, 1-8 cells of all five classes, random "
     "forces and momenta, 0-50 % of the nodes mutually coupled across non-static cells, free node slots, dt / damping / density / size over "
     "10 decades each, positions up to 1e4 cell sizes from the origin. Every live node of every non-static cell is compared with the closed-form law "
